@@ -119,6 +119,8 @@ pub struct Ctx {
 	pub replay_dir: PathBuf,
 	pub report: RefCell<ShardReport>,
 	pub case_no: Cell<u64>,
+	/// where the shard report goes (set for shard processes)
+	pub out_path: RefCell<Option<PathBuf>>,
 }
 
 pub fn fingerprint<T: Serialize>(v: &T) -> u64 {
@@ -356,6 +358,30 @@ impl Ctx {
 				false
 			},
 		}
+	}
+
+	/// Writes the shard report to its destination.
+	pub fn write_report(&self) {
+		if let Some(out) = self.out_path.borrow().as_ref() {
+			let rep = self.report.borrow();
+			let fps: Vec<u8> = rep.fps.iter().flat_map(|f| f.to_le_bytes()).collect();
+			let _ = std::fs::write(out.with_extension("fps"), fps);
+			let _ = std::fs::write(out, serde_json::to_vec(&*rep).unwrap());
+		}
+	}
+
+	/// A library call did not return (a helper thread is stuck inside it): record the failure
+	/// for the given case, write the report and leave the process - shrinking is impossible.
+	pub fn abort_with_failure<T: Serialize>(&self, sub: &str, case: &T, f: &Failure) -> ! {
+		{
+			let mut rep = self.report.borrow_mut();
+			rep.cases += 1;
+			rep.evaluations += 1;
+		}
+		self.record_failure(sub, case, f);
+		self.write_report();
+		let _ = std::fs::remove_dir_all(&self.scratch);
+		std::process::exit(0)
 	}
 
 	pub fn failed(&self) -> bool {
